@@ -47,6 +47,8 @@ class Check:
 
     def ob(self, rule, site, ok, what, key=None, detail=None):
         """ok: True (discharged) / False (violated) / None (undecidable)"""
+        if ok is not None:
+            ok = bool(ok)  # rules pass truthy values (ints, lists); only None means undecidable
         v = "discharged" if ok is True else "violated" if ok is False else "undecidable"
         o = {"rule": rule, "site": site, "verdict": v, "what": what, "config": self.config}
         if key:
